@@ -55,9 +55,10 @@ def run(ctx):
         ctx.extra["exhaustive_space"] = f"all {len(extra)} op sequences of length <= 4 over the 14-op alphabet of hg.small_alphabet() (correspondence + predicate)"
     dis, hist = run_sm(ctx, M, "HG", FIELDS, pred, ctx.n(300, 12000), derive=derive, extra_histories=extra,
                        corr_name="correspondence HG~Hypergraph (incidence projection)")
-    if (dis or not ok) and not ctx.violations:
+    from ..core import unlisted_violations
+    if (dis or not ok) and not unlisted_violations(ctx):
         targeted_search(ctx, M, pred, dis, hist, n=ctx.n(1500, 20000), derive=derive)
-        if not ctx.violations:
+        if not unlisted_violations(ctx):
             ctx.violation("model-tie", "unproven", {"broken": ctx.broken, "example": ctx.extra.get("disagreements", [])[:1]},
                           detail="; ".join(ctx.broken)[:500], kind="unproven", broken=ctx.broken)
     ctx.assumptions = ["IDs restricted to int/str/tuple-of-atoms/None; bool/float IDs outside the model",
